@@ -92,6 +92,9 @@ impl Default for SimConfig {
     }
 }
 
+/// `Strategy::Starve(HOLD_ANY)` with `hold_sites`: every thread is held at those sites.
+pub const HOLD_ANY: u32 = 999;
+
 #[derive(Clone, Debug, Serialize, Deserialize, PartialEq, Eq)]
 pub enum FatalKind {
     Deadlock,
@@ -631,13 +634,19 @@ impl Sim {
         // it is parked at a listed site and the others have not yet taken `hold_steps` steps -
         // unless nothing else can ever run
         g.threads[me].parked_at = g.steps + 1;
-        let held_victim: Option<usize> = match g.cfg.strategy {
+        // (Starve(HOLD_ANY): whichever threads are parked at a listed site are held)
+        let held: Vec<usize> = match g.cfg.strategy {
             Strategy::Starve(v) if !g.cfg.hold_sites.is_empty() => {
-                let victim = (v as usize) % g.threads.len();
-                let at_site = g.cfg.hold_sites.iter().any(|s| s == g.threads[victim].last_site);
-                (at_site && (g.steps + 1).saturating_sub(g.threads[victim].parked_at) < g.cfg.hold_steps).then_some(victim)
+                let candidates: Vec<usize> = if v == HOLD_ANY { (0..g.threads.len()).collect() } else { vec![(v as usize) % g.threads.len()] };
+                candidates
+                    .into_iter()
+                    .filter(|&t| {
+                        g.cfg.hold_sites.iter().any(|s| s == g.threads[t].last_site)
+                            && (g.steps + 1).saturating_sub(g.threads[t].parked_at) < g.cfg.hold_steps
+                    })
+                    .collect()
             }
-            _ => None,
+            _ => Vec::new(),
         };
         loop {
             enabled.clear();
@@ -661,10 +670,10 @@ impl Sim {
                     }
                 }
             }
-            if let Some(v) = held_victim {
-                let others = enabled.iter().any(|(i, _)| *i != v);
+            if !held.is_empty() {
+                let others = enabled.iter().any(|(i, _)| !held.contains(i));
                 if others || (g.cfg.hold_through_idle && min_deadline.is_some()) {
-                    enabled.retain(|(i, _)| *i != v);
+                    enabled.retain(|(i, _)| !held.contains(i));
                 }
             }
             if !enabled.is_empty() {
